@@ -334,6 +334,81 @@ def collision_case(b, root, fns, opt, tag):
     return res
 
 
+def find_library_collision(b, root, n=4000):
+    """Two library names with the same library_hash_name (read off the database header)."""
+    d = os.path.join(root, "hc-libs")
+    os.makedirs(d, exist_ok=True)
+    with open(os.path.join(d, "h.h"), "w") as f:
+        f.write("__begin_publish\ninline int one(int a) { return a; }\n__end_publish\n")
+
+    def run(i):
+        name = "lib%d" % i
+        od = os.path.join(d, "%d.in" % i)
+        r = tools.interrogate(b, ["-od", od, "-module", "m", "-library", name, "-c", "-fnames", "h.h"], cwd=d)
+        if r.rc != 0:
+            return name, None
+        try:
+            h = D.parse_in(open(od, "rb").read())["library_hash_name"]
+        finally:
+            os.unlink(od)
+        return name, h
+    seen = {}
+    pair = None
+    for name, h in pmap(run, range(n)):
+        if h is None:
+            raise HarnessError("library-name probe failed for %s" % name)
+        if h in seen and pair is None:
+            pair = (seen[h], name, h)
+        seen.setdefault(h, name)
+    shutil.rmtree(d, ignore_errors=True)
+    return pair, len(seen)
+
+
+def crosslib_case(b, root, libs, opt, tag):
+    """libs: [(library name, [function names])] -- one module made of libraries whose names
+    hash alike, each holding one member of a colliding signature pair."""
+    d = os.path.join(root, tag)
+    shutil.rmtree(d, ignore_errors=True)
+    os.makedirs(d)
+    res = {"opt": opt.key, "libs": libs, "status": "ok", "sig": "", "steps": []}
+    objs, ins, names = [], [], []
+    for lib, fns in libs:
+        ld = os.path.join(d, lib)
+        os.makedirs(ld)
+        with open(os.path.join(ld, "h.h"), "w") as f:
+            f.write("__begin_publish\n" + "".join("inline int %s(int a) { return a; }\n" % x for x in fns)
+                    + "__end_publish\n")
+        args = ["-oc", "x.cxx", "-od", "%s.in" % lib, "-module", "m", "-library", lib] + opt.argv() + ["h.h"]
+        r = tools.interrogate(b, args, cwd=ld)
+        res["steps"].append(" ".join(r.cmd))
+        if r.rc != 0:
+            res.update(status="noexit0", sig="interrogate exit %s" % r.rc)
+            return res
+        db = D.parse_in(open(os.path.join(ld, lib + ".in"), "rb").read())
+        names += [(lib, w["name"], w["unique_name"]) for _, w in sorted(db["wrappers"].items())]
+        res.setdefault("libhash", []).append(db["library_hash_name"])
+        obj = os.path.join(d, lib + ".o")
+        rc, out = L.compile_obj(b, ld, os.path.join(ld, "x.cxx"), obj)
+        if rc != 0:
+            res.update(status="compile", sig=norm_sig(out), out=out[:1500])
+            return res
+        objs.append(obj)
+        ins.append(os.path.join(ld, lib + ".in"))
+    res["names"] = names
+    res["same_libhash"] = len(set(res["libhash"])) == 1
+    un = [u for _, _, u in names]
+    if len(set(un)) != len(un):
+        res.update(status="names", sig="two wrappers of one module share a unique name", detail=names)
+        return res
+    rc, out = L.gxx(["-shared", "-o", os.path.join(d, "m.so")] + objs, d)
+    res["steps"].append("g++ -shared " + " ".join(objs))
+    if rc != 0:
+        res.update(status="link", sig=norm_sig(out), out=out[:1500])
+        return res
+    shutil.rmtree(d, ignore_errors=True)
+    return res
+
+
 # --------------------------------------------------------------------------- main
 IMPORT_QUICK = [
     "python+fnames", "python+fnames+do-module", "python+fnames+string",
@@ -349,7 +424,7 @@ def headers_for(tier):
     nasty = L.GROUPS["nasty"]
     # atoms with an open known finding live in a header of their own, so that they cannot
     # mask (or slow down the isolation of) anything else
-    hs = [("plain", plain), ("nasty", nasty), ("adversarial", L.GROUPS["adversarial"])]
+    hs = [("plain", plain), ("nasty", nasty)] + [("adv-" + a, [a]) for a in L.GROUPS["adversarial"]]
     if tier == "thorough":
         hs.append(("all-reversed", list(reversed(plain + nasty))))
         hs.append(("interleaved", [x for p in itertools.zip_longest(nasty, plain) for x in p if x]))
@@ -424,10 +499,13 @@ def main():
     # ---------------- phase 2: split failing headers into atoms, group, confirm, report
     if failures:
         iso_jobs = []
+        seen = {}
         for hn, o, res in failures:
+            if len(res["atoms"]) == 1:
+                seen[(res["atoms"][0], o.key)] = res      # already a single atom
+                continue
             for a in res["atoms"]:
                 iso_jobs.append((hn, o, a))
-        seen = {}
 
         def iso(j):
             hn, o, a = j
@@ -520,6 +598,39 @@ def main():
                     confirm=lambda perm=perm, o=o, st=st:
                     collision_case(b, root, perm, o, "hc-confirm")["status"] == st)
 
+        # two libraries of one module whose *names* hash alike, each with one member of a
+        # colliding signature pair: both wrappers would get the same symbol and unique name
+        pair, nprobed = find_library_collision(b, root)
+        ck.extra["library_name_probe"] = {"names_tried": nprobed, "colliding": pair}
+        if pair is not None:
+            la, lb, _h = pair
+            xj = []
+            for h, fns in list(groups.items())[:3]:      # same three pairs in both tiers
+                for f1, f2 in itertools.permutations(fns[:2]):
+                    for o in (L.Opt("c", "fnames"), L.Opt("python", "fnames")):
+                        xj.append(([(la, [f1]), (lb, [f2])], o))
+
+            def runx(j):
+                libs, o = j
+                tag = "xl-%s-%s-%s" % (libs[0][1][0], libs[1][1][0], o.key.replace("+", "_"))
+                return j, crosslib_case(b, root, libs, o, tag)
+            xfail = {}
+            for (libs, o), res in pmap(runx, xj):
+                key = "crosslib|%s|%s" % (",".join("%s:%s" % (l, f[0]) for l, f in libs), o.key)
+                ck.note(key, nontrivial=bool(res.get("same_libhash")), family="collisions-across-libraries",
+                        outcome="crosslib:%s:%s" % (res["status"], o.backend),
+                        sample={"libraries": libs, "options": o.argv(), "names": res.get("names")})
+                if res["status"] != "ok":
+                    xfail.setdefault((o.backend, res["status"], res["sig"]), []).append((key, libs, o, res))
+            for (be, st, sig), members in sorted(xfail.items()):
+                key, libs, o, res = sorted(members, key=lambda m: m[0])[0]
+                ck.fail(key, "colliding library-name and signature hashes: %s: %s [smallest of %d case(s)]"
+                        % (st, sig, len(members)),
+                        {"observed": sig, "kind": "crosslib", "libs": libs, "opt": o.key, "result": res,
+                         "same_observation_cases": sorted(m[0] for m in members)},
+                        confirm=lambda libs=libs, o=o, st=st:
+                        crosslib_case(b, root, libs, o, "xl-confirm")["status"] == st)
+
     # ---------------- phase 4: full link + import
     if want("import") and not ck.expired(reserve=90):
         if thorough:
@@ -593,6 +704,8 @@ def replay(ck, b):
         res = evaluate(b, root, d["atoms"], o, "replay", mode_for(o))
     elif d["kind"] == "collision":
         res = collision_case(b, root, d["fns"], o, "replay")
+    elif d["kind"] == "crosslib":
+        res = crosslib_case(b, root, [(l, f) for l, f in d["libs"]], o, "replay")
     else:
         res = import_case(b, root, [tuple(x) for x in d["libs"]], o, "replay")
     print("case   :", rp["key"])
